@@ -31,6 +31,7 @@ func init() {
 
 func rulesC13(c *Ctx) {
 	rulePutFresh(c, "C13.PUTFRESH")
+	ruleWithDefault(c, "C13.DEFAULT")
 	// a container written twice in one transaction is replaced, not merged: "is it empty" is not asked of bbolt's
 	// page statistics (they do not see the transaction's own writes)
 	ruleNoStats(c, "C13.NOSTATS")
@@ -1276,6 +1277,79 @@ func ruleC13Codec(c *Ctx) {
 	dss := p.SSAFunc(p.Func("boltz", "DecodeStringSlice"))
 	ok := len(loopsOf(dss)) == 1
 	c.Check(ok, "C13.CODEC", "boltz.DecodeStringSlice", p.Pos(dss.Pos()), "decodes in a loop until the input is consumed", "does not loop over the whole input")
+	// the bound is per component: the encoder joins any number of components, so the decoder must not refuse a key
+	// for its total length (unless the encoder refuses to produce it)
+	totalBound := func(fn *ssa.Function) (token.Pos, bool) {
+		for _, b := range fn.Blocks {
+			for _, in := range b.Instrs {
+				bo, isBo := in.(*ssa.BinOp)
+				if !isBo {
+					continue
+				}
+				l, r, op := bo.X, bo.Y, bo.Op
+				if _, isK := intConst(l); isK {
+					l, r = r, l
+					switch op {
+					case token.LSS:
+						op = token.GTR
+					case token.LEQ:
+						op = token.GEQ
+					default:
+						op = token.ILLEGAL
+					}
+				}
+				k, isK := intConst(r)
+				x := lenOf(l)
+				if !isK || k < 1 || x == nil || (op != token.GTR && op != token.GEQ) {
+					continue
+				}
+				// the whole input: a []byte parameter, or the loop variable that starts as one / an accumulated output
+				whole := false
+				seen := map[ssa.Value]bool{}
+				var walk func(v ssa.Value, d int)
+				walk = func(v ssa.Value, d int) {
+					if v == nil || seen[v] || d > 4 {
+						return
+					}
+					seen[v] = true
+					switch y := v.(type) {
+					case *ssa.Parameter:
+						if sl, isSl := y.Type().Underlying().(*types.Slice); isSl && types.Identical(sl.Elem(), types.Typ[types.Byte]) {
+							whole = true
+						}
+					case *ssa.Phi:
+						for _, e := range y.Edges {
+							walk(e, d+1)
+						}
+					}
+				}
+				walk(x, 0)
+				if whole {
+					return bo.Pos(), true
+				}
+			}
+		}
+		return token.NoPos, false
+	}
+	es := p.SSAFunc(p.Func("boltz", "EncodeStringSlice"))
+	encBounded := false
+	for _, b := range es.Blocks {
+		for _, in := range b.Instrs {
+			if bo, isBo := in.(*ssa.BinOp); isBo && (bo.Op == token.GTR || bo.Op == token.GEQ || bo.Op == token.LSS || bo.Op == token.LEQ) {
+				if (lenOf(bo.X) != nil || lenOf(bo.Y) != nil) && !func() bool { _, a := intConst(bo.X); _, b := intConst(bo.Y); return !a && !b }() {
+					if kx, isK := intConst(bo.Y); isK && kx >= 1 {
+						encBounded = true
+					}
+				}
+			}
+		}
+	}
+	if !encBounded {
+		for _, fn := range []*ssa.Function{dss, dec} {
+			pos, has := totalBound(fn)
+			c.Check(!has, "C13.CODEC", FnName(fn)+": no bound on the whole key", p.Pos(fn.Pos()), "the decoder compares only component lengths against a bound", "the decoder refuses a key by the length of its whole input (at "+p.Pos(pos)+"): the encoder bounds each component but joins any number of them, so a list it encodes without error does not decode")
+		}
+	}
 	c.Floor("C13.CODEC", 5)
 }
 
